@@ -133,7 +133,8 @@ h("ki5b_comment", HDR, HP, ["C20", "C02"], kernel="KI5b", expect_s=40, timeout=9
 h("ki5b_hcrc", HDR, HP, ["C08", "C20", "C03", "C02"], kernel="KI5b", expect_s=15, timeout=600,
   functions=["State::dispatch (mode HCrc, Type)"],
   bounds="any running header CRC, 0..=3 input bytes, wrap in {2,6}, FHCRC set or clear")
-h("ki5a_head", HDR, HP, ["C03", "C13", "C02"], kernel="KI5a", expect_s=60, timeout=900,
+h("ki5a_head", HDR, HP, ["C03", "C13", "C02"], kernel="KI5a", expect_s=120, timeout=1200, weight=2,
+  unwindset=[("State::<'_>::dispatch", ("zlib-rs/src/inflate.rs", "let ret = 'label: loop {"), 4)],
   functions=["State::dispatch (modes Head, DictId, Dict, Type)"],
   bounds="0..=6 symbolic bytes, wrap in {1,2,3,5,6,7}, wbits in {0, 8..=15}, flush = Block", assumptions=NOCRC)
 h("ki5a_set_dictionary", HDR, HP, ["C13", "C16", "C02"], kernel="KI5a", expect_s=120, timeout=1200, weight=2,
@@ -147,7 +148,8 @@ STEP_ASSUME = ["inflate_table stubbed by assume(false) (dynamic blocks outside t
                "inflate_fast_help behind a checked stub: reaching it fails the harness",
                "checked stubs (panic if reached) for callees the harness bounds make unreachable: Writer::copy_match, Writer::extend_from_window, <[u16]>::fill",
                "block-layer / header / trailer harnesses: State::len_and_friends -> contract stub 'suspends at once' (the symbol decoder is KI5d's subject)"]
-h("ki5c_typedo", BLK, BP, ["C03", "C02", "C04"], kernel="KI5c", expect_s=40, timeout=900,
+h("ki5c_typedo", BLK, BP, ["C03", "C02", "C04"], kernel="KI5c", expect_s=120, timeout=1200, weight=2,
+  unwindset=[("State::<'_>::dispatch", ("zlib-rs/src/inflate.rs", "let ret = 'label: loop {"), 4)],
   functions=["State::dispatch (modes TypeDo, Stored, Len_, Len, Table, Check, Length, Done)", "State::len_and_friends (entry)"],
   bounds="0..=7 primed bits + 0..=1 input byte (<= 9 bits in all), any flush mode, last-block flag set or clear",
   assumptions=STEP_ASSUME)
@@ -172,6 +174,7 @@ h("ki5d_len_step", SYM, SP, ["C03", "C02", "C04"], kernel="KI5d", expect_s=60, t
   bounds="fixed tables, 0..=9 primed bits of any value, no input, output capacity <= 3 with 0..=cap already written",
   assumptions=STEP_ASSUME + ["oracle: RFC 1951 3.2.5/3.2.6 reference decoder in the harness"])
 h("ki5d_dist_step_dispatch", SYM, SP, ["C03", "C02", "C04"], kernel="KI5d", expect_s=120, timeout=1200, weight=2,
+  unwindset=[("State::<'_>::dispatch", ("zlib-rs/src/inflate.rs", "let ret = 'label: loop {"), 5)],
   functions=["State::dispatch (modes LenExt, Dist, DistExt, Match)", "inffixed_tbl::DISTFIX"],
   bounds="start in LenExt/Dist/DistExt with any carried registers, 0..=23 primed bits, no input, writer full (step ends in Match before any copy)",
   assumptions=STEP_ASSUME)
@@ -240,3 +243,94 @@ h("ka1_alloc_shim", A, "allocate::verif_kani", ["C18"], kernel="KA1", expect_s=1
 h("ka1_alloc_overflow_and_null", A, "allocate::verif_kani", ["C18", "C06"], kernel="KA1", expect_s=5, timeout=300,
   functions=["Allocator::allocate_slice_raw", "Allocator::allocate_layout", "Allocator::deallocate"],
   bounds="every length above u32::MAX - 9 (request no longer fits unsigned int); NULL pointer deallocation")
+
+# ---------------------------------------------------------------- deflate: KD8 level-1 path
+Q = D + "/kd8_quick.rs"
+QP = "deflate::verif_kani::kd8_quick"
+QFN = ["deflate::deflate", "deflate::reset", "algorithm::run", "algorithm::quick::deflate_quick", "fill_window", "read_buf_window",
+       "hash_calc::StandardHashCalc::quick_insert_value", "compare256::compare256_slice (generic)", "BitWriter::{emit_tree,emit_lit,emit_dist_static,emit_end_block_and_align}",
+       "flush_pending", "deflate::bound"]
+QAS = ["<[u16]>::fill / <[u8]>::fill -> write_bytes(0) model", "State::init_block -> write_bytes model with the same post-state (level 1 never reads the frequencies)",
+       "reduced sizes: w_size 512, pending 64 B; raw wrapper"]
+h("kd8_quick_finish_n1", Q, QP, ["C01", "C05", "C07", "C06"], kernel="KD8", expect_s=80, timeout=1200, weight=2, mem_gb=16,
+  functions=QFN, bounds="level 1, one Finish call, input length 1 (concrete), contents symbolic, 14 bytes of output; oracle: fixed-Huffman reference decoder", assumptions=QAS)
+h("kd8_quick_finish_n3", Q, QP, ["C01", "C05", "C07", "C06"], kernel="KD8", expect_s=300, timeout=2400, weight=3, mem_gb=20,
+  functions=QFN, bounds="level 1, one Finish call, input length 3 (concrete), contents symbolic; oracle: fixed-Huffman reference decoder", assumptions=QAS)
+h("kd8_quick_finish_n5", Q, QP, ["C01", "C05", "C07"], kernel="KD8", tier="thorough", expect_s=2400, timeout=5400, weight=4, mem_gb=30,
+  functions=QFN, bounds="level 1, one Finish call, input length 5 (concrete; first length at which a match can be emitted), contents symbolic", assumptions=QAS)
+h("kd8_quick_sync_n3", Q, QP, ["C11", "C01", "C05"], kernel="KD8", expect_s=300, timeout=2400, weight=3, mem_gb=20,
+  functions=QFN + ["zng_tr_stored_block"], bounds="level 1, one Sync or Full flush call, input length 3 (concrete), contents symbolic, 18 bytes of output", assumptions=QAS)
+
+# ---------------------------------------------------------------- inflate: KI7 inflate() entry, KI8 small entry points
+h("ki7_inflate_copyblock", I + "/ki7_inflate.rs", "inflate::verif_kani::ki7_inflate", ["C15", "C04", "C08", "C02", "C13"],
+  kernel="KI7", expect_s=300, timeout=2400, weight=3, mem_gb=20,
+  functions=["inflate::inflate (prologue, epilogue, must_update_window, BufError rule)", "State::dispatch (CopyBlock, Type, TypeDo, Check, Length, Done)",
+             "Window::extend", "adler32_fold_copy", "State::decoding_state", "inflate::get_dictionary"],
+  bounds="resumed stored block (remaining <= 5), final block, wrap in {0,1,5}, 0..=7 input bytes, output capacity 0..=4 in a canaried array, any flush, "
+         "any running checksum and totals, window W = 4",
+  assumptions=STEP_ASSUME + ["adler32::adler32 -> byte-wise fold model (which bytes are folded, once, in order; Adler-32 itself is C09's subject)"])
+h("ki7_inflate_terminal", I + "/ki7_inflate.rs", "inflate::verif_kani::ki7_inflate", ["C15", "C16", "C02"],
+  kernel="KI7", expect_s=60, timeout=900,
+  functions=["inflate::inflate"], bounds="modes Done and Bad, NULL or valid next_in/next_out, avail_in <= 4, any flush", assumptions=STEP_ASSUME)
+h("ki8_reset_equals_fresh", I + "/ki8_entry.rs", "inflate::verif_kani::ki8_entry", ["C14", "C16", "C10"],
+  kernel="KI8", expect_s=60, timeout=900,
+  functions=["inflate::reset_with_config", "inflate::reset", "inflate::reset_keep", "Window::clear"],
+  bounds="every scalar of the inflate State arbitrary (8 representative modes), every i32 windowBits; compared with reset of a freshly constructed State")
+h("ki8_small_entry_points", I + "/ki8_entry.rs", "inflate::verif_kani::ki8_entry", ["C16", "C02"],
+  kernel="KI8", expect_s=60, timeout=900,
+  functions=["inflate::prime", "sync_point", "validate", "undermine", "mark", "codes_used", "get_header", "BitReader::prime"],
+  bounds="any 0..=31 bits in the register, every i32 bits/value/subvert, any wrap <= 7")
+h("ki8_sync", I + "/ki8_entry.rs", "inflate::verif_kani::ki8_entry", ["C16", "C02", "C15"],
+  kernel="KI8", expect_s=120, timeout=1200, weight=2,
+  functions=["inflate::sync", "syncsearch", "BitReader::start_sync_search", "inflate::reset"],
+  bounds="0..=7 symbolic input bytes, empty bit register, any wrap, header seen or not; reference scan for 00 00 FF FF in the harness")
+
+# ---------------------------------------------------------------- inflateBack
+h("kb1_back_distance", I + "/kb1_back.rs", "inflate::verif_kani::kb1_back", ["C19", "C02"],
+  kernel="KB1", expect_s=300, timeout=2400, weight=3, mem_gb=24,
+  functions=["inflate::infback::back (modes Type, Len incl. distance decoding and the window copy loop, Done, Bad)", "inffixed_tbl::{LENFIX,DISTFIX}"],
+  bounds="windowBits 8 (256-byte window as a typed local), one input slice of 10 bytes: 8 concrete prefix bytes (final fixed block, six literals, "
+         "length-3 code) + 2 symbolic bytes = every distance code and extra-bit value; output callback records what it is given",
+  unwindset=[("infback::back", None, 5), ("infback::back", 0, 13), ("kb1_back::out_cb", None, 17), ("kb1_back::kb1_back_distance", None, 10)],
+  assumptions=["inflate_table stubbed by assume(false) (dynamic blocks outside)", "inflate_fast_back behind a checked stub (needs >= 15 input bytes)",
+               "concrete prefix: CBMC keeps decoder modes concrete only for fully concrete bytes (DESIGN.md §1)"])
+
+# ---------------------------------------------------------------- checksums (C09)
+CB = "zlib-rs/src/crc32/braid/verif_kani.rs"
+CBP = "crc32::braid::verif_kani"
+h("kc9_crc_tables", CB, CBP, ["C09"], kernel="KC9", expect_s=30, timeout=900,
+  functions=["crc32::braid::{CRC32_BYTE_TABLE, CRC32_WORD_TABLE}", "get_crc_table", "build_crc32_table (evaluated by rustc, result checked)"],
+  bounds="all 256 x 8 table entries (symbolic indices); reference = bitwise shift steps of polynomial 0xEDB88320")
+h("kc9_crc_braid_table", CB, CBP, ["C09"], kernel="KC9", expect_s=60, timeout=900,
+  functions=["Crc32BraidTable::<5>::TABLE"], bounds="all 256 x 8 entries of the N = 5 braid table (up to 320 bit steps each)")
+h("kc9_crc_naive_step", CB, CBP, ["C09"], kernel="KC9", expect_s=30, timeout=900,
+  functions=["crc32::braid::crc32_naive_inner"], bounds="every 32-bit crc, one and two symbolic bytes (induction step of the byte kernel)")
+h("kc9_crc_word_step", CB, CBP, ["C09"], kernel="KC9", expect_s=200, timeout=1800, weight=2,
+  functions=["crc32::braid::crc32_words_inner"], bounds="every 32-bit crc, one symbolic 64-bit word vs its 8 bytes through the byte kernel")
+h("kc9_crc_braid_short", CB, CBP, ["C09"], kernel="KC9", expect_s=120, timeout=1800, weight=2,
+  functions=["crc32::braid::crc32_braid::<5>", "crc32_naive_inner", "crc32_words_inner"],
+  bounds="symbolic start, 0..=3 symbolic bytes; reference = bitwise CRC-32",
+  assumptions=["Kani's model of <[u8]>::align_to decides prefix/words/suffix; whichever split it yields is the one checked"])
+CC = "zlib-rs/src/crc32/combine/verif_kani.rs"
+CCP = "crc32::combine::verif_kani"
+h("kc9_crc_combine_len0_1_2", CC, CCP, ["C09"], kernel="KC9", expect_s=120, timeout=1800, weight=2,
+  functions=["crc32_combine", "crc32_combine_gen", "crc32_combine_op", "multmodp", "x2nmodp"],
+  bounds="symbolic crc(A), symbolic B of concrete length 0, 1, 2; combine == bitwise CRC of A || B, both forms")
+h("kc9_crc_combine_len3_4", CC, CCP, ["C09"], kernel="KC9", tier="thorough", expect_s=600, timeout=3600, weight=2,
+  functions=["crc32_combine", "crc32_combine_gen", "crc32_combine_op"], bounds="symbolic crc(A), symbolic B of concrete length 3 and 4")
+h("kc9_multmodp_identity_linear", CC, CCP, ["C09"], kernel="KC9", expect_s=60, timeout=1200,
+  functions=["multmodp", "crc32_combine_gen"], bounds="every 32-bit b1, b2; operator for len2 = 5")
+AD = "zlib-rs/src/adler32/verif_kani.rs"
+ADP = "adler32::verif_kani"
+h("kc9_adler_closed_form_is_rfc", AD, ADP, ["C09"], kernel="KC9", expect_s=60, timeout=1200,
+  functions=["(harness) closed form vs RFC 1950 recurrence"], bounds="length 0 and 3, every valid start, symbolic data")
+h("kc9_adler_len_0_1_2_3", AD, ADP, ["C09", "C08"], kernel="KC9", expect_s=60, timeout=1200,
+  functions=["adler32::adler32", "generic::adler32_rust", "adler32_len_1", "adler32_len_16"],
+  bounds="lengths 0, 1, 2, 3 (concrete), every valid start, symbolic data; reference = closed form of the RFC recurrence")
+h("kc9_adler_len_15_16_17", AD, ADP, ["C09"], kernel="KC9", expect_s=300, timeout=2400, weight=2, mem_gb=16,
+  functions=["adler32::adler32", "generic::adler32_rust", "adler32_len_16", "adler32_len_64"],
+  bounds="lengths 15, 16, 17 (the 16-byte unrolling boundary), every valid start, symbolic data")
+h("kc9_adler_len_31_32_33", AD, ADP, ["C09"], kernel="KC9", tier="thorough", expect_s=900, timeout=3600, weight=3, mem_gb=20,
+  functions=["adler32::adler32", "generic::adler32_rust"], bounds="lengths 31, 32, 33, every valid start, symbolic data")
+h("kc9_adler_piecewise_fold_copy", AD, ADP, ["C09", "C08"], kernel="KC9", expect_s=200, timeout=1800, weight=2,
+  functions=["adler32::adler32", "adler32::adler32_fold_copy"], bounds="5 symbolic bytes cut at any point, every valid start; result stays a valid Adler-32 value")
